@@ -117,6 +117,39 @@ return b;`
 
 // sioExpand turns the model form of a message (inline specifications reduced
 // to {"name": label, "doc": mode}) into the form handed to Go.
+var sioTypedCount int
+
+// sioGoTyped: a host written in Go hands ProcessMsg a routing list of type []string as readily as the []interface{} a
+// JSON decoder makes; every other submitted message with an all-string list gets the Go-typed form
+func sioGoTyped(x interface{}) interface{} {
+	m, is := x.(map[string]interface{})
+	if !is {
+		return x
+	}
+	l, is := m["to"].([]interface{})
+	if !is || len(l) == 0 {
+		return x
+	}
+	ss := make([]string, 0, len(l))
+	for _, y := range l {
+		s, is := y.(string)
+		if !is {
+			return x
+		}
+		ss = append(ss, s)
+	}
+	sioTypedCount++
+	if sioTypedCount%2 == 0 {
+		return x
+	}
+	acc := make(map[string]interface{}, len(m))
+	for k, v := range m {
+		acc[k] = v
+	}
+	acc["to"] = ss
+	return acc
+}
+
 func sioExpand(x interface{}) interface{} {
 	switch v := x.(type) {
 	case []interface{}:
@@ -362,7 +395,7 @@ func sioApply(ctx context.Context, c *sio.Crew, op *sioOp) (r *sio.Result, statu
 		switch op.Kind {
 		case "msg":
 			var err error
-			r, err = c.ProcessMsg(ctx, sioExpand(op.Msg))
+			r, err = c.ProcessMsg(ctx, sioGoTyped(sioExpand(op.Msg)))
 			return err
 		case "set":
 			var src *crew.SpecSource
